@@ -4,6 +4,9 @@
 CONSTANTS
   MaxSend = 1
   EofWithData = TRUE
+  ShapesA <- LocalShapes
+  ShapesB <- AllShapes
+  DevCloseWriterFallback = FALSE
   Emit = FALSE
   Classes = {1}
   BatchSize = 32
@@ -19,6 +22,9 @@ CONSTANTS
   DevSpin = FALSE
   DevNoUnblock = FALSE
   DevAliasFlush = FALSE
+  SockQueue = FALSE
+  DevQueueRefs = FALSE
+  DevDropOnClose = FALSE
 SPECIFICATION BSpec
 INVARIANTS BTypeOK BPipe BComplete BReverseKeepsFlowing BNoSpuriousEnd
 PROPERTIES BMonotone BTermination BReverseDelivered
